@@ -141,7 +141,7 @@ def followed_by_notify(db, C, f, node, cvloc, depth=0, seen=None):
     return True, None
 
 
-@rule("R-CV", 2, "condition-variable discipline: every update of state read by a wait predicate happens with the waiter's "
+@rule("R-CV", 1, "condition-variable discipline: every update of state read by a wait predicate happens with the waiter's "
                  "mutex held and is followed by a notify on every path (no lost wake-up)")
 def r_cv(db, rep):
     C = ctx(db)
@@ -345,7 +345,31 @@ def _roles(db):
     return run, tasks, wclo | tclo
 
 
-@rule("R-LOCKSET", 3, "every location shared between the producer and the workers (pool state, and everything a queued task "
+def _fresh_stable_slot(db, lam, l):
+    """l = ("L", outer function id, decl id): a pointer local of the enclosing function, captured by value by lam, whose only
+    definition is the address of the element just appended to a std::deque / std::list."""
+    outer = db.funcs.get(l[1])
+    if outer is None:
+        return False
+    ln = next((x for x in outer.nodes() if x["k"] == "LambdaExpr" and x.get("lambda") == lam.id), None)
+    if ln is None:
+        return False
+    cap = next((cp for cp in ln.get("captures", []) if cp.get("d") == l[2]), None)
+    if cap is None or cap.get("byref"):
+        return False
+    ini = single_def_init(outer, l[2])
+    if ini is None:
+        return False
+    si = strip(ini)
+    if si["k"] != "UnaryOperator" or si["op"] != "&":
+        return False
+    call = strip(si["sub"])
+    if call["k"] != "CXXMemberCallExpr" or callee_name(call) not in ("emplace_back", "emplace_front"):
+        return False
+    return (call.get("frec") or "").startswith(("std::deque", "std::list", "std::forward_list"))
+
+
+@rule("R-LOCKSET", 2, "every location shared between the producer and the workers (pool state, and everything a queued task "
                       "shares with the building constructor) is accessed under one common lock")
 def r_lockset(db, rep):
     C = ctx(db)
@@ -393,6 +417,12 @@ def r_lockset(db, rep):
             if jn is not None and not f.is_lambda and f.id == locks.outer_id(db, f):
                 if f.cfg.dominates(f.cfg.position(jn), f.cfg.position(n)) and f.cfg.position(jn) != f.cfg.position(n):
                     continue
+            # ownership hand-off: a pointer the producer takes to an element it has just appended to a node-based container
+            # (std::deque / std::list: growing never moves existing elements) and that the task captures *by value* designates a
+            # slot no other thread knows; the task's store through its private copy is not a shared access before the join.
+            # (With std::vector the same code is a race - growth relocates the slots - and stays reported.)
+            if f.is_lambda and l[0] == "L" and rw == "w" and _fresh_stable_slot(db, f, l):
+                continue
             acc[l].append((f, n, rw, frozenset(C.held(f, n)), frozenset(role)))
     for l in sorted(acc, key=str):
         lst = acc[l]
@@ -538,21 +568,27 @@ def r_join(db, rep):
         w, s, j = sync_nodes(db, c, "wait"), sync_nodes(db, c, "stop"), sync_nodes(db, c, "join")
         adds = [n for n in c.calls() if callee_name(n) == "add_task"]
         rep.ob()
-        if not (w and s and j):
+        # stop + join are what completion rests on: the workers leave their loop only with the queue drained (R-DRAIN), so after
+        # stop_all_workers ; wait_workers every queued task has run.  A condition wait before the stop is the tree's belt-and-braces
+        # form; when present it must come first, but its absence is not a defect.
+        if not (s and j):
             rep.viol("%s#missing-sync" % c.qn, c.loc, "%s queues tasks but lacks %s" % (
-                c.qn, ", ".join(x for x, y in (("the completion wait", w), ("stop_all_workers", s), ("wait_workers", j)) if not y)), c.qn)
+                c.qn, ", ".join(x for x, y in (("stop_all_workers", s), ("wait_workers", j)) if not y)), c.qn)
             continue
-        wp, sp, jp = cfg.position(w[0]), cfg.position(s[0]), cfg.position(j[0])
+        sp, jp = cfg.position(s[0]), cfg.position(j[0])
+        wp = cfg.position(w[0]) if w else None
         for a in adds:
             ap = cfg.position(a)
-            for name, p in (("completion wait", wp), ("stop_all_workers", sp), ("wait_workers", jp)):
+            for name, p in ((("completion wait", wp),) if wp is not None else ()) + (("stop_all_workers", sp), ("wait_workers", jp)):
                 rep.ob()
                 if cfg.path_exists(ap, [cfg.exit], avoid=[p]):
                     rep.viol("%s#exit-skips-%s" % (c.qn, name.replace(" ", "-")), c.nloc(a),
                              "a path from add_task to the end of %s skips the %s: the constructor can return (and the pool, mutex and counters "
                              "die) while tasks still run" % (c.qn, name), c.qn)
         rep.ob()
-        ordered = cfg.dominates(wp, sp) and cfg.dominates(sp, jp)
+        ordered = (wp is None or cfg.dominates(wp, sp)) and cfg.dominates(sp, jp)
+        if not w:
+            w = [None]
         if ordered and (w[0] is s[0] or s[0] is j[0]):
             # several steps inside one helper: their order is the helper's
             h = db.funcs.get(w[0].get("f") if w[0] is s[0] else s[0].get("f"))
